@@ -174,6 +174,78 @@ def F4h_ws():
     return ("UnicodeDecodeError" in n or "AttributeError" in n), f"exception escaping handle(): {n}"
 
 
+def F3e():
+    """the application returns while the reader is still working through a batch of frames
+    (Ping, then a message, in one read): websocket.receive is put after websocket.disconnect"""
+    puts = []
+    errs = []
+    armed = []
+
+    async def app(scope, receive, send):
+        await receive()
+        await send({"type": "websocket.accept"})
+        # returns at once: hypercorn closes with 1011 and sends the disconnect
+
+    class Slow(H1):
+        slow_writes = [20]  # the pong write is slow (transport back-pressure); later writes are not
+
+        async def send(self, event):
+            n = self.slow_writes.pop(0) if (self.slow_writes and armed) else 0
+            for _ in range(n):
+                await asyncio.sleep(0)  # a real transport write may suspend
+            await super().send(event)
+
+    async def sc(h):
+        c = Client()
+        gate = asyncio.Event()
+        orig = h.proto.task_group.spawn_app if False else None
+        await h.feed(c.req)
+        return True
+
+    # drive by hand so that the application only gets to run while the reader is suspended
+    async def run():
+        h = Slow(app)
+        errs.append(h.log)
+        h.ctx = __import__("hypercorn.asyncio.worker_context", fromlist=["WorkerContext"]).WorkerContext(None)
+        from hypercorn.app_wrappers import ASGIWrapper
+        from hypercorn.asyncio.task_group import TaskGroup
+        from hypercorn.protocol import ProtocolWrapper
+        from hypercorn.typing import ConnectionState
+        from hypercorn.events import RawData
+        hold = asyncio.Event()
+
+        async def held_app(scope, receive, send):
+            await receive()
+            await send({"type": "websocket.accept"})
+            await hold.wait()
+
+        async with TaskGroup(asyncio.get_running_loop()) as tg:
+            h.proto = ProtocolWrapper(ASGIWrapper(held_app), h.config, h.ctx, tg, ConnectionState({}), False, None, None, h.send, "http/1.1")
+            c = Client()
+            await h.proto.handle(RawData(c.req))
+            await h.settle()
+            c.feed(h.wire)
+            stream = h.proto.protocol.stream
+            orig_put = stream.app_put
+
+            async def spy(msg):
+                puts.append(msg["type"])
+                await orig_put(msg)
+            stream.app_put = spy
+            batch = c.ws.send(we.Ping(payload=b"p")) + c.ws.send(we.TextMessage(data="late"))
+            armed.append(True)
+            hold.set()  # the application returns as soon as it is scheduled
+            await h.proto.handle(RawData(batch))
+            await h.settle()
+    err = None
+    try:
+        asyncio.run(asyncio.wait_for(run(), 5))
+    except BaseException as e:
+        err = e
+    bad = "websocket.disconnect" in puts and puts.index("websocket.disconnect") < len(puts) - 1
+    return bad, f"messages put to the application, in order: {puts} (run ended with {names(err)})"
+
+
 SCENARIOS = {k: v for k, v in globals().items() if k.startswith("F") and callable(v)}
 
 if __name__ == "__main__":
